@@ -113,6 +113,8 @@ class SubPackets(collections_abc.MutableMapping, Field):
         # hashed area octets exactly as received, and the subpacket objects that were parsed from them
         self._hashed_raw = None
         self._hashed_parsed = None
+        self._unhashed_raw = None
+        self._unhashed_parsed = None
 
     def __bytearray__(self):
         _bytes = bytearray()
@@ -135,6 +137,11 @@ class SubPackets(collections_abc.MutableMapping, Field):
         return _bytes
 
     def __unhashbytearray__(self):
+        if self._unhashed_raw is not None:
+            current = list(self._unhashed_sp.values())
+            if len(current) == len(self._unhashed_parsed) and all(c is p for c, p in zip(current, self._unhashed_parsed)):
+                return bytearray(self._unhashed_raw)
+
         _bytes = bytearray()
         _bytes += self.int_to_bytes(sum(len(sp) for sp in self._unhashed_sp.values()), 2)
         for uhsp in self._unhashed_sp.values():
@@ -194,6 +201,10 @@ class SubPackets(collections_abc.MutableMapping, Field):
             sp._hashed_raw = self._hashed_raw[:]
             sp._hashed_parsed = self._hashed_parsed[:]
 
+        if self._unhashed_raw is not None:
+            sp._unhashed_raw = self._unhashed_raw[:]
+            sp._unhashed_parsed = self._unhashed_parsed[:]
+
         return sp
 
     def addnew(self, spname, hashed=False, **kwargs):
@@ -233,9 +244,13 @@ class SubPackets(collections_abc.MutableMapping, Field):
         del packet[:2]
 
         plen = len(packet)
+        uraw = bytearray(self.int_to_bytes(uhl, 2)) + packet[:uhl]
         while plen - len(packet) < uhl:
             sp = SignatureSP(packet)
             self[sp.__class__.__name__] = sp
+
+        self._unhashed_raw = uraw
+        self._unhashed_parsed = list(self._unhashed_sp.values())
 
 
 class UserAttributeSubPackets(SubPackets):
